@@ -35,6 +35,9 @@ TrSeen == /\ Is("seen") /\ Ev.status = (IF Live(Ev.mb, Ev.id) THEN 200 ELSE 404)
           /\ MarkSeen(Ev.mb, Ev.id) /\ SnapOK(boxes') /\ Mark
 TrPurge == /\ Is("purge") /\ Ev.status = 200 /\ Purge(Ev.mb) /\ SnapOK(boxes') /\ Mark
 TrJoin == /\ Is("join") /\ Ev.r = "ok" /\ Join(Ev.mon, Ev.filter, Ev.ver) /\ SnapOK(boxes) /\ Mark
+(* a request to the monitor URL that is refused (no WebSocket comes of it): nothing changes, for anybody *)
+TrBadJoin == /\ Is("badjoin") /\ Ev.status >= 400 /\ Ev.status < 500
+             /\ UNCHANGED <<boxes, stored, mon, pop>> /\ SnapOK(boxes) /\ Mark
 TrDrain == /\ Is("drain") /\ Drained(Ev.mon, Ev.evs) /\ SnapOK(boxes) /\ Mark
 TrLeave == /\ Is("leave") /\ Leave(Ev.mon) /\ SnapOK(boxes) /\ Mark
 TrPopLogin == /\ Is("poplogin") /\ Ev.r = "+OK" /\ PopLogin(Ev.mb)
@@ -44,7 +47,7 @@ TrPopDele == /\ Is("popdele") /\ Ev.r = "+OK" /\ PopDele(Ev.n) /\ SnapOK(boxes) 
 TrPopQuit == /\ Is("popquit") /\ Ev.r = "+OK" /\ PopQuit /\ SnapOK(boxes') /\ Mark
 TrPopDrop == /\ Is("popdrop") /\ PopDrop /\ SnapOK(boxes) /\ Mark
 
-TraceNext == TrReset \/ TrDeliver \/ TrDelete \/ TrSeen \/ TrPurge \/ TrJoin \/ TrDrain \/ TrLeave
+TraceNext == TrBadJoin \/ TrReset \/ TrDeliver \/ TrDelete \/ TrSeen \/ TrPurge \/ TrJoin \/ TrDrain \/ TrLeave
              \/ TrPopLogin \/ TrPopDele \/ TrPopQuit \/ TrPopDrop
 TraceSpec == TraceInit /\ [][TraceNext]_tvars
 TraceAccepted ==
